@@ -132,12 +132,55 @@ func (g *gen03) decorate(root *Ty) {
 	}
 }
 
+// declare a share of the types through typedefs: scalars, binary, string, containers, structs, element / key / value types,
+// chains of typedefs.  The descriptor the model sees is the resolved type.
+func (g *gen03) typedefs() {
+	n := 0
+	var visit func(t *Ty)
+	seen := map[*Ty]bool{}
+	visit = func(t *Ty) {
+		if t == nil || seen[t] || t == g.base {
+			return
+		}
+		seen[t] = true
+		for _, f := range t.Fields {
+			visit(f.T)
+		}
+		visit(t.Key)
+		visit(t.Elem)
+		if g.r.chance(40) || (t.K == thrift.STRING && t.Binary && g.r.chance(50)) {
+			for k := 1 + g.r.intn(3)/2; k > 0; k-- {
+				n++
+				t.TD = append(t.TD, fmt.Sprintf("Td%d", n))
+			}
+		}
+	}
+	for _, s := range g.structs {
+		visit(s)
+	}
+}
+
+// which root fields the PARSED descriptor treats as the response base (the IDL parser recognises base.BaseResp only in the
+// struct it meets at recursion depth 0: a request struct reached through a typedef is one level down and keeps its base
+// field as an ordinary member — the descriptor shape of the case says what the descriptor says)
+func (g *gen03) baseFromDesc(t *Ty, d *thrift.TypeDescriptor) {
+	if t.K != thrift.STRUCT {
+		return
+	}
+	for _, f := range t.Fields {
+		if fd := d.Struct().FieldById(thrift.FieldID(f.ID)); fd != nil {
+			g.extra[f].respBase = fd.IsResponseBase()
+		}
+	}
+}
+
 func (g *gen03) idl03(root *Ty, useBase bool) (string, map[string]string) {
 	var sb strings.Builder
 	sb.WriteString("namespace go verif\n")
 	if useBase {
 		sb.WriteString("include \"base.thrift\"\n")
 	}
+	sb.WriteString(typedefDecls(append(append([]*Ty(nil), g.structs...), root)))
 	for i := len(g.structs) - 1; i >= 0; i-- {
 		s := g.structs[i]
 		if s == g.base {
@@ -564,6 +607,9 @@ func genC03(r *rng, n int) {
 			root.Fields[0].ID = 0
 		}
 		g.decorate(root)
+		if g.r.chance(30) {
+			g.typedefs()
+		}
 		if useBase {
 			g.extra[baseFld].respBase = true
 			g.extra[baseFld].jsconv = false
@@ -590,6 +636,7 @@ func genC03(r *rng, n int) {
 			die("C03: IDL does not parse: %v\n%s", err, idl)
 		}
 		g.aliasesFromDesc(rootTy, desc)
+		g.baseFromDesc(rootTy, desc)
 		var dfs []string
 		g.descFields(rootTy, &dfs)
 
